@@ -166,15 +166,19 @@ L_SupplyRoot(c, q) == \A as \in Assets : q.sup[as] - c.ext[as] = BookSum(q, as)
 L_ModuleEmpty(c, p, q, a, g, ok) == \A as \in Assets : q.bal[TM][as] = p.bal[TM][as]
 L_ModuleEmptyRoot(c, q) == \A as \in Assets : q.bal[TM][as] = 0
 (* L6 burns never exceed the holder's balance nor the book; the book never becomes negative, and BurnTokensForApp never   *)
-(*    burns an app's token down to zero (ErrorBurningMakesSupplyLessThanZero: "reduces the supply to 0 or less")           *)
+(*    burns an app's token down to zero (ErrorBurningMakesSupplyLessThanZero: "reduces the supply to 0 or less").          *)
+(*    The bounds by the book are demanded of steps that start from an intact book (book = supply of that asset): after an  *)
+(*    earlier, separately reported deviation has torn book and supply apart they cannot be expected.                        *)
+Intact(c, s, as) == s.sup[as] - c.ext[as] = BookSum(s, as)
 L_BurnBounded(c, p, q, a, g, ok) ==
   /\ a = "BurnForApp" /\ ok => q.book[g.app][g.asset].cur > 0
   /\ a \in {"BurnForApp", "BurnGov"} /\ ok =>
         /\ g.amt > 0 /\ p.bal[g.from][g.asset] >= g.amt
         /\ q.bal[g.from][g.asset] = p.bal[g.from][g.asset] - g.amt /\ p.sup[g.asset] - q.sup[g.asset] = g.amt
         /\ OthersSame(p, q, {g.from}, g.asset)
-        /\ Done(p, g.app, g.asset) /\ p.book[g.app][g.asset].cur >= g.amt
-  /\ \A app \in Apps, as \in Assets : p.book[app][as].cur >= 0 => q.book[app][as].cur >= 0
+        /\ Done(p, g.app, g.asset)
+        /\ Intact(c, p, g.asset) => p.book[g.app][g.asset].cur >= g.amt
+  /\ \A app \in Apps, as \in Assets : (Intact(c, p, as) /\ p.book[app][as].cur >= 0) => q.book[app][as].cur >= 0
 (* L7 MintNewTokensForApp mints exactly the requested amount to the named address, only on a minted (app, asset) *)
 L_MintForAppExact(c, p, q, a, g, ok) ==
   a = "MintForApp" /\ ok =>
